@@ -95,9 +95,11 @@ def gen(ctx):
     return out
 
 
-def damped(net):
+def damped(net, non_local=None):
+    """|similarity|, damped by distance iff the network is non-local; the
+    flag is the one the history of set_non_local calls implies when given"""
     S = net.similarity_measure()
-    if net.non_local():
+    if (net.non_local() if non_local is None else non_local):
         return S * (0.5 * (np.tanh(20 * (net.grid.angular_distance() - 0.05))
                            + 1))
     return S
@@ -137,6 +139,7 @@ def run_case(ctx, c, terms=None):
                         and np.all(np.diag(absS) == absS.max()))
         steps = [("init", thr0)] + [(o, None) for o in c["ops"]]
         prevA, prevthr, prevnl = None, None, None
+        nl_flag = False           # what the set_non_local calls imply
         for op, _ in steps:
             req = None
             try:
@@ -146,7 +149,8 @@ def run_case(ctx, c, terms=None):
                     req = rng.randint(0, 64) / 64.0
                     net.set_link_density(req)
                 elif op == "nl":
-                    net.set_non_local(not net.non_local())
+                    nl_flag = not nl_flag
+                    net.set_non_local(nl_flag)
             except Exception as e:
                 ctx.violation(f"ClimateNetwork.{op}", "raises", dict(
                     key, err=f"{type(e).__name__}: {e}"),
@@ -155,7 +159,13 @@ def run_case(ctx, c, terms=None):
             ctx.stat("op=" + op)
             A = np.asarray(net.adjacency).astype(int)
             thr = float(net.threshold())
-            W = damped(net)
+            if bool(net.non_local()) is not nl_flag:
+                ctx.violation("ClimateNetwork.non_local",
+                              "is not what the set_non_local calls so far "
+                              "imply", dict(key, after=op, expected=nl_flag),
+                              {})
+                return
+            W = damped(net, nl_flag)
             want = (W > thr).astype(int)
             np.fill_diagonal(want, 0)
             k2 = dict(key, after=op, threshold=thr,
@@ -224,8 +234,16 @@ def subclasses(ctx):
                 np.sin(np.arange(T))[:, None] * np.arange(1, n + 1)[None, :]
             g = grid(rng, n)
             from pyunicorn.core.geo_grid import GeoGrid
-            g = GeoGrid(np.arange(T), g.lat_sequence(), g.lon_sequence(),
-                        silence_level=3)
+            lat, lon = np.array(g.lat_sequence(), float), \
+                np.array(g.lon_sequence(), float)
+            # some neighbours a few degrees apart: inside the range where the
+            # non-local damping matters
+            for k in range(1, n):
+                if rng.random() < 0.5:
+                    lat[k] = np.clip(lat[k - 1] + rng.choice([-2, 1, 3]),
+                                     -88, 88)
+                    lon[k] = lon[k - 1] + rng.choice([-3, 0, 2])
+            g = GeoGrid(np.arange(T), lat, lon, silence_level=3)
             # MutualInfoClimateNetwork cannot be constructed at all on this
             # tree: mutual_information() opens its dump file in text mode and
             # pickles into it (TypeError), see DESIGN.md "other observations"
@@ -235,16 +253,30 @@ def subclasses(ctx):
                 try:
                     net = cls(data, threshold=0.3, winter_only=False,
                               silence_level=3)
+                    state = {"nl": False}
+
+                    def flip():
+                        state["nl"] = not state["nl"]
+                        net.set_non_local(state["nl"])
                     ops = [lambda: net.set_threshold(rng.randint(1, 9) / 10.),
                            lambda: net.set_link_density(
                                rng.randint(1, 9) / 10.),
-                           lambda: net.set_non_local(not net.non_local()),
+                           flip,
                            lambda: net.set_winter_only(
                                not net.winter_only())]
                     for _ in range(4):
                         rng.choice(ops)()
                         A = np.asarray(net.adjacency).astype(int)
-                        W = damped(net)
+                        if bool(net.non_local()) is not state["nl"]:
+                            ctx.violation(
+                                f"{cls.__name__}.non_local",
+                                "is not what the set_non_local calls so far "
+                                "imply", {"obs": obs.tolist(),
+                                          "lat": g.lat_sequence().tolist(),
+                                          "lon": g.lon_sequence().tolist(),
+                                          "expected": state["nl"]}, {})
+                            break
+                        W = damped(net, state["nl"])
                         want = (W > net.threshold()).astype(int)
                         np.fill_diagonal(want, 0)
                         ctx.evaluations += 1
